@@ -333,7 +333,7 @@ fn shrink_doc(c: &Case, class: &str) -> Case {
         }
     }
     // a simpler personality that still shows it
-    for bit in [4u8, 2, 1] {
+    for bit in [32u8, 16, 8, 4, 2, 1] {
         if cur.personality & bit != 0 {
             let cand = Case { personality: cur.personality & !bit, doc: cur.doc.clone(), query: cur.query.clone(), fat: cur.fat, shared: cur.shared, shuffled: cur.shuffled };
             if check_case(&cand).map(|x| x.class == class).unwrap_or(false) {
@@ -366,7 +366,7 @@ struct FamOut {
     nonempty: u64,
     shapes: BTreeSet<(u8, u64)>,
     counts: [u64; simdoc::N_ACC],
-    by_pers: [u64; 16],
+    by_pers: [u64; 64],
     errs: u64,
     first: Option<(u64, Case, Diff)>,
     n_viol: u64,
@@ -375,7 +375,7 @@ struct FamOut {
 }
 
 fn run_family(seed: u64, f: u64, q_per_fam: usize) -> FamOut {
-    let mut out = FamOut { evals: 0, fat_evals: 0, shared_evals: 0, shuffled_evals: 0, nonempty: 0, shapes: BTreeSet::new(), counts: [0; simdoc::N_ACC], by_pers: [0; 16], errs: 0, first: None, n_viol: 0, sample: None, classes: BTreeMap::new() };
+    let mut out = FamOut { evals: 0, fat_evals: 0, shared_evals: 0, shuffled_evals: 0, nonempty: 0, shapes: BTreeSet::new(), counts: [0; simdoc::N_ACC], by_pers: [0; 64], errs: 0, first: None, n_viol: 0, sample: None, classes: BTreeMap::new() };
     let mut rng = Rng::new(derive(seed, "c15fam", f));
     let p = match f % 11 {
         3 => DocParams { max_nodes: 60 + rng.below(60), max_depth: 2 + rng.below(2), names: gen::NAMES_C15, max_width: 14, long_arrays: true, mixed_names: false },
@@ -497,10 +497,10 @@ fn run_family(seed: u64, f: u64, q_per_fam: usize) -> FamOut {
                     }
                 }
             }
-            for pers in [0u8, 1, 2, 3, 4, 5, 6, 7, 8, 15] {
+            for pers in [0u8, 1, 2, 3, 4, 5, 6, 7, 8, 15, 16, 32, 63] {
                 let got = eval_sim(&sd, &locs, Personality(pers), q);
                 out.evals += 1;
-                out.by_pers[(pers as usize).min(15)] += 1;
+                out.by_pers[(pers as usize).min(63)] += 1;
                 for i in 0..simdoc::N_ACC {
                     out.counts[i] += got.counts[i];
                 }
@@ -563,7 +563,7 @@ pub fn drive(tier_name: &str, seed: u64, workers: usize) -> i32 {
     let mut nonempty = 0u64;
     let mut shapes: BTreeSet<(u8, u64)> = BTreeSet::new();
     let mut counts = [0u64; simdoc::N_ACC];
-    let mut by_pers = [0u64; 16];
+    let mut by_pers = [0u64; 64];
     let mut errs = 0u64;
     let mut n_viol = 0u64;
     let mut first: Option<(u64, Case, Diff)> = None;
@@ -579,7 +579,7 @@ pub fn drive(tier_name: &str, seed: u64, workers: usize) -> i32 {
         for i in 0..simdoc::N_ACC {
             counts[i] += o.counts[i];
         }
-        for i in 0..16 {
+        for i in 0..64 {
             by_pers[i] += o.by_pers[i];
         }
         errs += o.errs;
@@ -622,7 +622,7 @@ pub fn drive(tier_name: &str, seed: u64, workers: usize) -> i32 {
                     // reference() is not part of the view: the stub does not override it
                     for ops in p.clients.iter_mut() {
                         for op in ops.iter_mut() {
-                            if let c12::Op::Ref { q, d } = op {
+                            if let c12::Op::Ref { q, d } | c12::Op::RefMut { q, d } = op {
                                 *op = c12::Op::W { q: *q, d: *d };
                             }
                         }
@@ -688,7 +688,7 @@ pub fn drive(tier_name: &str, seed: u64, workers: usize) -> i32 {
         let min = shrink_doc(case, &diff.class);
         let d2 = check_case(&min).unwrap_or(diff.clone());
         let body = json!({"property": "C15", "kind": "c15-case", "class": d2.class, "detail": d2.detail, "case": min, "original_document": case.doc,
-            "personality_bits": "bit0: as_f64 is None for integers; bit1: Default::default() is a sentinel string; bit2: Debug is opaque",
+            "personality_bits": "bit0: as_f64 is None for integers; bit1: Default::default() is a sentinel string; bit2: Debug is opaque; bit3: From<f64> of an integral value builds the integer form; bit4: get() with a bare all-digit key indexes arrays; bit5: From<Vec<Self>> builds a sentinel string",
             "how_to_replay": "./check C15 --replay <this file>"});
         let p = report::write_replay("C15", &format!("seed{}-fam{}", seed, f), &body);
         println!("violation class={} personality={}{} query={} document={} — {}", d2.class, min.personality, if min.fat { " (large node type)" } else if min.shared { " (sharing stub)" } else if min.shuffled.is_some() { " (member order shuffled; multiset comparison)" } else { "" }, min.query, min.doc.to_string().chars().take(600).collect::<String>(), d2.detail);
@@ -742,8 +742,8 @@ pub fn drive(tier_name: &str, seed: u64, workers: usize) -> i32 {
         "node_sizes_in_bytes": {"serde_json::Value": std::mem::size_of::<Value>(), "SimDoc": std::mem::size_of::<SimDoc>(), "FatDoc": std::mem::size_of::<FatDoc>()},
         "evaluations_with_non_empty_result": nonempty,
         "value_side_errors": errs,
-        "evaluations_by_personality": by_pers.iter().enumerate().map(|(i, n)| (format!("p{}", i), *n)).collect::<BTreeMap<_, _>>(),
-        "personality_bits": "bit0: as_f64 is None for integers; bit1: Default::default() is a sentinel string; bit2: Debug is opaque",
+        "evaluations_by_personality": by_pers.iter().enumerate().filter(|(_, n)| **n > 0).map(|(i, n)| (format!("p{}", i), *n)).collect::<BTreeMap<_, _>>(),
+        "personality_bits": "bit0: as_f64 is None for integers; bit1: Default::default() is a sentinel string; bit2: Debug is opaque; bit3: From<f64> of an integral value builds the integer form; bit4: get() with a bare all-digit key indexes arrays; bit5: From<Vec<Self>> builds a sentinel string",
         "accessor_calls": acc,
         "scheduled_class": {"runs": threaded_done, "operations": threaded_ops, "scheduler_steps": threaded_steps, "context_switches": threaded_switches, "client_aborts_fired": threaded_faults, "cold_value_keys": table.len()},
         "differences_by_class": classes,
